@@ -192,7 +192,7 @@ class C13(Check):
     lean_targets = ["drv_c13"]
     driver = "drv_c13"
     theorems = ["Pox.C13.dispatch_agrees", "Pox.C13.classes_agree", "Pox.C13.requests_handled", "Pox.C13.consts_spec",
-                "Pox.C13.one_reply", "Pox.C13.stats_spec", "Pox.C13.oversize_entry_fails", "Pox.C13.silent_kinds", "Pox.C13.handled_partial", "Pox.C13.never_fails_partial", "Pox.C13.order", "Pox.C13.stream_concat",
+                "Pox.C13.one_reply", "Pox.C13.stats_spec", "Pox.C13.oversize_entry_fails", "Pox.C13.multipart_split", "Pox.C13.silent_kinds", "Pox.C13.handled_partial", "Pox.C13.never_fails_partial", "Pox.C13.order", "Pox.C13.stream_concat",
                 "Pox.C13.barrier_after", "Pox.C13.errors_spec", "Pox.C13.replies_carry_xid", "Pox.C13.set_config_visible",
                 "Pox.C13.unhandled_type_fails",
                 "Pox.C13.history_answered_partial", "Pox.C13.history_events_partial", "Pox.C13.rejected_answered", "Pox.C13.runEv_msgs",
@@ -641,6 +641,38 @@ class C13(Check):
             cases.append(self.gen_case(rng, rng.randint(1, 6), "step"))
         return cases
 
+    LIMIT8 = 65520                  # largest body of 8-byte-aligned entries one stats reply can carry (65523 rounded down)
+    FAT_PLANS = [[40000, 40000, 30000], [40000, 32760, 32760], [40000, 32760, 32768], [40000, 32760, 32752], [30000, 30000, 30000, 30000],
+                 [65520, 65520], [65520, 96, 65424], [50000, 15520, 65520 - 96, 96], [50000, 15528, 65520 - 96, 96, 96],
+                 [20000, 20000, 20000, 20000, 20000, 20000, 25520], [88, 65432, 88, 65432, 96]]
+
+    @staticmethod
+    def fat_flows(fm, sizes):
+        """flows whose statistics entries have exactly the given sizes (88 + 8 per action), in table order"""
+        n = len(sizes)
+        return [fm(50 + i, 0, 1 + i % 4, 100 + n - i, acts=[(0, 2)] * max(0, (sz - 88) // 8), ck=700 + i) for i, sz in enumerate(sizes)]
+
+    def gen_fat(self, rng, fm, mode):
+        """a few flows with long action lists, sized so that some part of the statistics reply ends within 16 bytes of the limit"""
+        sizes = []
+        for _ in range(rng.choice([1, 2, 2, 3])):                      # parts
+            room = self.LIMIT8 + rng.choice([-16, -8, 0, 0, 8, 16])
+            k = rng.choice([1, 2, 2, 3])
+            cut = sorted(rng.randrange(96, room - 96, 8) for _ in range(k - 1))
+            sizes += [b - a for a, b in zip([0] + cut, cut + [room]) if b - a >= 88]
+        sizes = [min(sz, self.LIMIT8) for sz in sizes][:7]
+        flall = {"k": "stats_request", "xid": 9001, "st": "flow", "mkey": None, "table_id": 0xff, "out_port": OFPP_NONE}
+        msgs = self.fat_flows(fm, sizes) + [flall, {"k": "barrier_request", "xid": 9002},
+                                           {"k": "stats_request", "xid": 9003, "st": "aggregate", "mkey": None, "table_id": 0, "out_port": OFPP_NONE}]
+        c = {"state": copy.deepcopy(self.STATES[0]), "mode": mode, "msgs": msgs}
+        if mode == "batch": c["cuts"] = sorted(rng.randint(1, 60000) for _ in range(rng.choice([0, 0, 2])))
+        return c
+
+    @staticmethod
+    def _fm(x, cmd, mk, prio, flags=0, out=OFPP_NONE, acts=(), ck=None):
+        return {"k": "flow_mod", "xid": x, "cmd": cmd, "mkey": mk, "prio": prio, "cookie": ck if ck is not None else x, "flags": flags, "idle": 0, "hard": 0,
+                "out_port": out, "bid": None, "acts": [list(a) for a in acts]}
+
     def corpus_hardening(self, S, fm, bar, ps, po, tr, tbl, fl, ag):
         """families from HARDENING.md: sweeps of every selector byte, boundary sizes, rare values, two switches in one
         process, a message still in flight"""
@@ -684,9 +716,16 @@ class C13(Check):
         for nflows in (682, 683):
             one(S[0], [fm(10 + i, 0, 1 + i % 4, 2000 - i, acts=[(0, 2)], ck=i) for i in range(nflows)] + [flall, ag, bar(9002)])
         one(S[0], [fm(10 + i, 0, 1 + i % 4, 2000 - i, ck=i) for i in range(743)] + [fm(900, 0, None, 1, acts=[(0, 1 + j % 4) for j in range(7)], ck=900), flall, bar(9002)])
-        for nports in (630, 631):
+        for nports in (630, 631, 1260, 1261):
             big = {"ports": list(range(1, nports + 1)), "deleted": [], "max_buffers": 2, "max_entries": 5, "miss": 128}
             one(big, [ps(1, OFPP_NONE), {"k": "features_request", "xid": 2}, bar(3), ps(4, nports), ps(5, nports + 1)], "batch")
+        # multipart replies whose LATER parts are full to within a few bytes: part boundaries at limit-k for small k, by entry count
+        # (two full parts of small entries, with 0 / 1 / 2 entries left over) and by entry size (few entries with long action lists)
+        for nflows in (1365, 1366):
+            one(S[0], [fm(10 + i, 0, 1 + i % 4, 3000 - i, acts=[(0, 2)], ck=i) for i in range(nflows)] + [flall, bar(9002), ag, tbl])
+        for sizes in self.FAT_PLANS:
+            one(S[0], self.fat_flows(fm, sizes) + [flall, bar(9002), {"k": "stats_request", "xid": 9003, "st": "flow", "mkey": None, "table_id": 0, "out_port": 2}, bar(9004), ag], "batch")
+            if sizes in self.FAT_PLANS[:4]: one(S[0], self.fat_flows(fm, sizes) + [flall, bar(9002), tr(1), flall, bar(9004)])
         # (5)/(7) the last message of a read has not arrived completely: everything before it is answered, it is not
         tail = [bar(1), ps(2, 1), {"k": "echo_request", "xid": 3, "body": "00" * 24}]
         for k in (1, 8, 24, 31):
@@ -711,7 +750,8 @@ class C13(Check):
         for i in range(n):
             L = rng.choice([2, 5, 10, 20, 40, 40, rng.randint(1, 40)])
             r = rng.random()
-            if i % 5 == 0: yield self.gen_case(rng, max(L, 4), rng.choice(["step", "step", "batch"]), focus=True)
+            if i % 100 == 7: yield self.gen_fat(rng, self._fm, rng.choice(["step", "batch"]))
+            elif i % 5 == 0: yield self.gen_case(rng, max(L, 4), rng.choice(["step", "step", "batch"]), focus=True)
             elif r < 0.45: yield self.gen_case(rng, L, "step", buffers=False, unhandled=(rng.random() < 0.3))
             elif r < 0.65:
                 c = self.gen_case(rng, L, "step", buffers=True)
@@ -857,8 +897,8 @@ class C13(Check):
         return None          # see model_request2: the data path is not modelled, its observed counters are fed to the model
 
     @staticmethod
-    def _sync(snap, buffers):
-        return {"k": "traffic", "xid": 0, "ports": snap["ports"], "flows": [[f[3], f[4]] for f in snap["flows"]], "lookup": snap["lookup"],
+    def _sync(snap, buffers, flows=True):
+        return {"k": "traffic", "xid": 0, "ports": snap["ports"], "flows": [[f[3], f[4]] for f in snap["flows"]] if flows else [], "lookup": snap["lookup"],
                 "matched": snap["matched"], "buffers": snap["buffers"] if buffers else None}
 
     def effective(self, case):
@@ -888,8 +928,11 @@ class C13(Check):
         case = self.effective(case)
         snaps = self.op_snaps(case, obs)
         if snaps is None: return None
-        evs, starting = [], True
+        evs, starting, prev = [], True, obs["init"]
         for m, snap in zip(case["msgs"], snaps):
+            # flow counters move only when packets do: the per-entry list is sent only when port / lookup counters moved
+            moved = (snap["ports"], snap["lookup"], snap["matched"]) != (prev["ports"], prev["lookup"], prev["matched"])
+            prev = snap
             k = m["k"]
             if k == "traffic":
                 evs.append(self._sync(snap, True)); continue
@@ -901,7 +944,7 @@ class C13(Check):
                 if "acts" in e: e["acts"] = [[a[0], a[1], len(self._action(a).pack())] for a in e["acts"]]
                 evs.append(e)
                 starting = False
-            evs.append(self._sync(snap, False))       # counters as the data path left them (packet_out / buffered packets move them)
+            evs.append(self._sync(snap, False, flows=moved))       # counters as the data path left them (packet_out / buffered packets move them)
         st = self.model_state(case["state"])
         return {"state": st, "msgs": evs}
 
